@@ -50,13 +50,17 @@ func c36Scenarios(thorough bool) []driver.Scenario {
 		take(c27Scenarios(false), func(i int, s driver.Scenario) bool { return s.Sequential && i%9 == 0 }, 0)
 		return out
 	}
-	take(chanx.Scenarios("C11", false), first(1), b)
-	take(chanx.Scenarios("C16", false), explored, b)
-	take(chanx.Scenarios("C18", false), func(i int, _ driver.Scenario) bool { return i == 1 }, b)
-	take(c34Scenarios(false), first(1), b)
 	take(c25Scenarios(false), every(16), 0)
 	take(c26Scenarios(false), every(25), 0)
 	take(c27Scenarios(false), func(i int, s driver.Scenario) bool { return s.Sequential && i%33 == 0 }, 0)
 	take(c28Scenarios(false), func(i int, s driver.Scenario) bool { return s.Sequential && i%5 == 0 }, 0)
+	n := len(out)
+	take(chanx.Scenarios("C11", false), first(1), b)
+	take(chanx.Scenarios("C18", false), func(i int, _ driver.Scenario) bool { return i == 1 }, b)
+	take(c34Scenarios(false), first(1), b)
+	take(chanx.Scenarios("C16", false), explored, b)
+	for i := n; i < len(out); i++ {
+		out[i].MaxExec = 250 // per worker: the quick tier spreads its budget over all scenario families
+	}
 	return out
 }
